@@ -244,15 +244,112 @@ def _wrun(args):
         return ["harness-exception:" + type(e).__name__ + ":" + str(e)[:200]] * max(1, len(cd["lines"]))
 
 
+WORKER_DIED = "worker-died"          # observable of a case whose worker process was killed (out of memory, fatal signal)
+WORKER_TIMEOUT = "worker-timeout"    # observable of a case that did not finish inside the per-case wall-clock limit
+CHUNK_WALL_S = 1500                  # a chunk of cases (or, after a failure, a single case) may take this long
+
+
+def _worker_main(modname, conn):
+    _winit()
+    while True:
+        try:
+            job = conn.recv()
+        except EOFError:
+            return
+        if job is None:
+            return
+        key, ds = job
+        conn.send((key, [_wrun((modname, d)) for d in ds]))
+
+
 def run_impl(modname, cases, procs=None):
+    """the real code on every case, in `procs` forked workers. A worker that DIES (killed for memory, fatal signal) or does not come
+    back within CHUNK_WALL_S does not take the check down: its chunk is re-run case by case in fresh workers and the one case that
+    kills / stalls its worker gets the observable WORKER_DIED / WORKER_TIMEOUT (a difference from every expectation)."""
     procs = procs or min(16, os.cpu_count() or 4)
     ds = [c.d() for c in cases]
     if len(ds) < 8 or os.environ.get("VERIF_SERIAL"):
         _winit()
         return [_wrun((modname, d)) for d in ds]
+    from multiprocessing.connection import wait
     ctx = mp.get_context("fork")
-    with ctx.Pool(procs, initializer=_winit) as pool:
-        return pool.map(_wrun, [(modname, d) for d in ds], chunksize=max(1, len(ds) // (procs * 8)))
+    k = max(1, len(ds) // (procs * 8))
+    queue = [(i, min(len(ds), i + k)) for i in range(0, len(ds), k)]      # (start, end) index ranges, popped from the front
+    results = [None] * len(ds)
+    workers = {}      # parent connection -> [process, job or None, deadline]
+
+    def spawn():
+        pc, cc = ctx.Pipe()
+        p = ctx.Process(target=_worker_main, args=(modname, cc), daemon=True)
+        p.start(); cc.close()
+        workers[pc] = [p, None, None]
+        return pc
+
+    def give(pc):
+        if queue:
+            job = queue.pop(0)
+            workers[pc][1], workers[pc][2] = job, time.time() + CHUNK_WALL_S
+            pc.send((job, ds[job[0]:job[1]]))
+            return True
+        return False
+
+    def retire(pc, kill=False):
+        p = workers.pop(pc)[0]
+        try:
+            if kill:
+                p.kill()
+            else:
+                pc.send(None)
+        except Exception:
+            pass
+        pc.close(); p.join(5)
+
+    def failed(pc, mark):
+        """the worker of `pc` died or stalled while it held a job"""
+        job = workers[pc][1]
+        retire(pc, kill=True)
+        if job is not None:
+            a, b = job
+            if b - a == 1:
+                results[a] = [mark] * max(1, len(ds[a]["lines"]))
+            else:
+                queue[0:0] = [(i, i + 1) for i in range(a, b)]      # find the culprit: one case per job, next in line
+        npc = spawn()
+        if not give(npc):
+            retire(npc)
+
+    for _ in range(min(procs, len(queue))):
+        give(spawn())
+    while workers:
+        busy = [pc for pc, w in workers.items() if w[1] is not None]
+        if not busy:
+            for pc in list(workers):
+                retire(pc)
+            break
+        ready = wait(busy + [workers[pc][0].sentinel for pc in busy], timeout=5)
+        now = time.time()
+        for pc in busy:
+            if pc not in workers:
+                continue
+            p, job, deadline = workers[pc]
+            if pc in ready:
+                try:
+                    key, res = pc.recv()
+                except (EOFError, OSError):
+                    failed(pc, WORKER_DIED)
+                    continue
+                results[key[0]:key[1]] = res
+                workers[pc][1] = None
+                if not give(pc):
+                    retire(pc)
+            elif p.sentinel in ready or not p.is_alive():
+                failed(pc, WORKER_DIED)
+            elif now > deadline:
+                failed(pc, WORKER_TIMEOUT)
+    for i, r in enumerate(results):
+        if r is None:       # cannot happen; never return a hole
+            results[i] = [WORKER_DIED] * max(1, len(ds[i]["lines"]))
+    return results
 
 
 # ----------------------------------------------------------------------------------------------
